@@ -48,6 +48,9 @@ type rec struct {
 	b  []byte
 	i  int
 	rx Relax
+	// skipFirst: with RSkip, prefer the skip scanner over the strict parse at every value (the
+	// recogniser does not backtrack, so both preferences are tried)
+	skipFirst bool
 }
 
 func (r *rec) ws() {
@@ -57,6 +60,13 @@ func (r *rec) ws() {
 }
 
 func Recognise(b []byte, rx Relax) bool {
+	if recognise1(b, rx, false) {
+		return true
+	}
+	return rx&RSkip != 0 && recognise1(b, rx, true)
+}
+
+func recognise1(b []byte, rx Relax, skipFirst bool) bool {
 	if rx&RNulSkipped != 0 {
 		nb := make([]byte, 0, len(b))
 		for i, c := range b {
@@ -68,7 +78,7 @@ func Recognise(b []byte, rx Relax) bool {
 		}
 		b = nb
 	}
-	r := &rec{b: b, rx: rx}
+	r := &rec{b: b, rx: rx, skipFirst: skipFirst}
 	r.ws()
 	if rx&RLeadSep != 0 && r.i < len(b) && (b[r.i] == ',' || b[r.i] == ':') {
 		r.i++
@@ -229,6 +239,13 @@ func (r *rec) str() bool {
 func (r *rec) value(depth int) bool {
 	if r.rx&RSkip != 0 {
 		save := r.i
+		if r.skipFirst {
+			if r.skipScan() {
+				return true
+			}
+			r.i = save
+			return r.value1(depth)
+		}
 		if r.value1(depth) {
 			return true
 		}
